@@ -204,7 +204,9 @@ var unexportedNames = []string{"a", "b", "priv"}
 var tagPool = []string{"a", "A", "b", "x", "X", "y", "a,omitempty", ",omitempty", ",string", "a,string", ",omitempty,string", "-", "-,", "a b",
 	"<x>&", "\u00e9", "\u017f", "\u212a", "k", "K", "s", "S", `a"b`, ",unknownopt", "name,omitempty,string,extra", "Ab", "ab", "AB", "f1", ",", "ID", "id", "a ", "\u2028",
 	// lengths around the 8- and 16-byte word sizes of the keyset lookup, with case variants
-	"abcdefghijklmnop", "ABCDEFGHIJKLMNOP", "abcdefghijklmno", "abcdefghijklmnopq", "abcdefgh", "ABCDEFGH", "abcdefghi", "abcdefghijklmnop,omitempty"}
+	"abcdefghijklmnop", "ABCDEFGHIJKLMNOP", "abcdefghijklmno", "abcdefghijklmnopq", "abcdefgh", "ABCDEFGH", "abcdefghi", "abcdefghijklmnop,omitempty",
+	// HTML-sensitive characters one at a time (the combined "<x>&" is above)
+	"a&b", "&", "a<b", "x>", "R&D,omitempty"}
 
 var embeddable = []string{"EmbA", "EmbB", "Deep", "Dup"}
 
